@@ -48,6 +48,9 @@ def replay(chk, units, keyfn, sample=None, seed=0, label='b1', pack=40, cc=True,
             raise RuntimeError(o['machinery'])
         chk.add('evaluations')
         ok, why = judge(u['exp'], o, u['cc'])
+        if ok is None and why.startswith('undetermined'):
+            chk.add('undetermined_not_judged')
+            continue
         if ok is None:
             rejected += 1
             chk.add('rejected_by_engine')
@@ -80,6 +83,8 @@ def failure_kind(why):
 
 def judge(exp, o, cc=True):
     """(ok, why); ok None = the engine rejected a spec-well-typed unit at semantic analysis."""
+    if exp.get('err') == 'undetermined':
+        return None, 'undetermined by VTL (not judged)'
     if 'err' in o:
         if o['err'].startswith('RAW:'):
             return False, 'raw (non-VTL) exception escaped: %s %s' % (o['err'], o.get('msg'))
@@ -134,7 +139,7 @@ def validate(chk, units, keyfn, pack=40, module='VTLOperators_Trace', cfg='VTLOp
     nontrivial = set()
     for u, o, v in zip(live_u, live_o, verdicts):
         if v['ok'] is None:
-            chk.add('skipped_overflow')
+            chk.add('undetermined_not_judged' if v.get('why', '').startswith('undetermined') else 'skipped_overflow')
             continue
         chk.add('traces_validated_against_impl')
         nontrivial.add(json.dumps(u['term'], sort_keys=True) + str(len(o.get('rows', []))))
